@@ -242,6 +242,10 @@ def _switch_sources(fn):
     return out
 
 
+BOOL_PREDICATES = {"core::option::Option::is_some": "Some", "core::option::Option::is_none": "None",
+                   "core::result::Result::is_ok": "Ok", "core::result::Result::is_err": "Err"}
+
+
 def reachable_ps(fn, start, removed=(), init=None, parents=None):
     """like reachable(), but a path that has assigned `_x = Enum::V(..)` (aggregate) and reaches
     `switch discriminant(_x)` with no redefinition in between follows only V's edge (the parser macros'
@@ -282,6 +286,12 @@ def reachable_ps(fn, start, removed=(), init=None, parents=None):
                         k[l] = k[src["l"]]
                     else:
                         k.pop(l, None)
+                elif rv["k"] == "un" and rv.get("op") == "Not":
+                    src = rv["ops"][0].get("move") or rv["ops"][0].get("copy")
+                    if src is not None and not src["p"] and k.get(src["l"]) in ("true", "false"):
+                        k[l] = "false" if k[src["l"]] == "true" else "true"
+                    else:
+                        k.pop(l, None)
                 else:
                     k.pop(l, None)
             elif st[0] == "setdiscr":
@@ -290,6 +300,15 @@ def reachable_ps(fn, start, removed=(), init=None, parents=None):
         nxt = s[b]
         if t["k"] == "call":
             k.pop(t["dest"]["l"], None)
+            # Option::is_some / is_none / Result::is_ok / is_err of a local whose variant is known
+            cn = t.get("resolved") or t.get("callee") or ""
+            pred = BOOL_PREDICATES.get(cn)
+            if pred is not None and t["args"] and not t["dest"]["p"]:
+                ap0 = t["args"][0].get("move") or t["args"][0].get("copy")
+                if ap0 is not None and not ap0["p"]:
+                    bases = refs.get(ap0["l"], ())
+                    if len(bases) == 1 and next(iter(bases)) in k:
+                        k[t["dest"]["l"]] = "true" if k[next(iter(bases))] == pred else "false"
             summ = VARIANT_SUMMARIES.get(t.get("resolved") or t.get("callee"))
             if summ is not None and not t["dest"]["p"] and summ[0] < len(t["args"]):
                 ap = t["args"][summ[0]].get("move") or t["args"][summ[0]].get("copy")
@@ -302,6 +321,12 @@ def reachable_ps(fn, start, removed=(), init=None, parents=None):
                         # a shared reference cannot change the variant; a mutable one can
                         if fn.local_ty(p["l"]).startswith("&mut"):
                             k.pop(tgt, None)
+        elif t["k"] == "switch" and "src" not in t and (t["on"].get("move") or t["on"].get("copy")) is not None \
+                and not (t["on"].get("move") or t["on"].get("copy"))["p"] and k.get((t["on"].get("move") or t["on"].get("copy"))["l"]) in ("true", "false"):
+            val = k[(t["on"].get("move") or t["on"].get("copy"))["l"]]
+            zero = [x["t"] for x in t["targets"] if x["val"] == "0"]
+            if zero:
+                nxt = [zero[0]] if val == "false" else [t["otherwise"]]
         elif t["k"] == "switch" and "src" in t:
             src = t["src"]
             base = None
